@@ -65,6 +65,17 @@ var c03Templates = []string{
 	"a.",
 }
 
+// c03HoleLine: the line (0-based) of byte offset pos in src.
+func c03HoleLine(src string, pos int) int {
+	line := 0
+	for i := 0; i < pos && i < len(src); i++ {
+		if src[i] == '\n' {
+			line++
+		}
+	}
+	return line
+}
+
 func c03CheckDiagnostic(src string, err error, positions bool) {
 	msg := err.Error()
 	_ = msg
@@ -130,6 +141,16 @@ func c03ParserHoles(positions bool) {
 	if err != nil {
 		verifrt.Reach("rejected")
 		c03CheckDiagnostic(src, err, positions)
+		// a lexical error (the hole made some text unlexable) is not reported on a
+		// line before the hole; seeds with tokens spanning lines are left out
+		if _, isLex := err.(*parser.SyntaxError); isLex && positions && hole == 1 &&
+			!strings.Contains(t, "`") && !strings.Contains(t, "/*") {
+			if pe, ok := err.(parser.ParserError); ok {
+				// the text before the hole is unchanged and lexes: the offending
+				// text starts on the hole's line or later
+				verifrt.Assert(pe.StartPosition().Line >= c03HoleLine(src, pos), "lexical-error-not-reported-before-the-text-that-caused-it")
+			}
+		}
 		return
 	}
 	verifrt.Reach("parsed")
